@@ -33,17 +33,20 @@ func runWriter(c *Case, res *Result, cfg Config, data []byte, pieces []int, k in
 	stuck := false
 	curCall := 0
 	total := 0
+	k2 := k + 1 + (k*7+retries)%3 // kind 3: the transient failure strikes twice
 	hooks := sim.Hooks{OnIO: func(s *sim.Sched, ti *sim.TaskInfo, obj, op string, kk, n int) sim.IOAction {
 		idx := total
 		total++
 		if stuck {
 			return sim.IOAction{Kind: sim.IOErr, Err: &sim.InjectedError{What: "sink stays failed"}}
 		}
-		if idx != k {
+		if idx != k && !(kind == 3 && idx == k2) {
 			return sim.IOAction{}
 		}
+		if !wr.fired {
+			wr.firedAt = curCall
+		}
 		wr.fired = true
-		wr.firedAt = curCall
 		switch {
 		case op == "close":
 			if kind != 0 {
@@ -51,7 +54,7 @@ func runWriter(c *Case, res *Result, cfg Config, data []byte, pieces []int, k in
 			}
 			s.Fault("sink.closeerr")
 			return sim.IOAction{Kind: sim.IOErr, Err: &sim.InjectedError{What: "sink close error"}}
-		case kind == 0:
+		case kind == 0 || kind == 3:
 			s.Fault("sink.err.transient")
 			return sim.IOAction{Kind: sim.IOErr, Err: &sim.InjectedError{What: "sink write error (transient)"}}
 		case kind == 1:
@@ -154,11 +157,14 @@ func C08(c *Case) *Result {
 		res.Render["sink_calls_fault_free"] = base.sinkCalls
 		res.Probes["scenarios.writer"]++
 		for k := 0; k < base.sinkCalls; k++ {
-			kind := t.Intn(3)
-			retries := t.Intn(3)
+			kind := t.Intn(4)
+			retries := t.Intn(4)
 			wr := runWriter(c, res, cfg, data, pieces, k, kind, retries, false)
 			res.Probes["fault.points.writer"]++
-			ctx := fmt.Sprintf("sink call #%d of %d fails (%s), %d Close retries; API calls: %v", k, base.sinkCalls, []string{"transient", "permanent", "torn+permanent"}[kind], retries, wr.calls)
+			if kind == 3 {
+				res.Probes["fault.repeated.transient"]++
+			}
+			ctx := fmt.Sprintf("sink call #%d of %d fails (%s), %d Close retries; API calls: %v", k, base.sinkCalls, []string{"transient", "permanent", "torn+permanent", "transient, twice"}[kind], retries, wr.calls)
 			if res.Verdict == "fail" {
 				res.Detail = ctx + ": " + res.Detail
 				return res
